@@ -103,6 +103,17 @@ func RunS(cfg Config, be *Backend, segs [][]byte, term string) *Obs {
 			o.State = conn.VerifState()
 		}
 	}
+	defer GuardEnter(func() string {
+		var all []byte
+		for _, s := range segs {
+			all = append(all, s...)
+			all = append(all, '|')
+		}
+		if len(all) > 600 {
+			all = all[:600]
+		}
+		return fmt.Sprintf("scripted connection, config %+v, terminal %s, segments %q", cfg, term, all)
+	}())()
 	o.Leak, o.Panic = Bubble(func() {
 		o.Err = srv.VerifServeConn(sc, func(c *smtp.Conn) { conn = c })
 		Wait() // let delivery goroutines that are still running finish (or block for good)
